@@ -596,6 +596,8 @@ impl<'a, T> std::ops::DerefMut for MutexGuard<'a, T> {
 impl<'a, T> Drop for MutexGuard<'a, T> {
   #[inline]
   fn drop(&mut self) {
+    // releasing is a synchronisation operation too: another thread may run while the lock is still held
+    sched::point();
     self.m.locked.set(false);
   }
 }
